@@ -100,6 +100,16 @@ func (x *Exec) isPureExternal(c *ssa.CallCommon) bool {
 }
 
 func (fr *Frame) call(n *vnode, instr *ssa.Call, c *ssa.CallCommon) *Val {
+	v := fr.call0(n, instr, c)
+	if fr == fr.x.topFrame && fr.contract != nil && len(fr.contract.Asserts) > 0 {
+		if _, isB := c.Value.(*ssa.Builtin); !isB {
+			fr.callSiteClauses(n, instr, c.StaticCallee(), c, nil, v, true)
+		}
+	}
+	return v
+}
+
+func (fr *Frame) call0(n *vnode, instr *ssa.Call, c *ssa.CallCommon) *Val {
 	x := fr.x
 	if bi, ok := c.Value.(*ssa.Builtin); ok {
 		return fr.builtin(n, instr, bi, c)
@@ -140,7 +150,7 @@ func (fr *Frame) call(n *vnode, instr *ssa.Call, c *ssa.CallCommon) *Val {
 			}
 		}
 	}
-	fr.callAsserts(n, instr, callee, c, args)
+	fr.callSiteClauses(n, instr, callee, c, args, nil, false)
 	if con != nil {
 		if con.Kind == "assume" {
 			// an assumed library contract written for particular argument types (e.g. slices.SortFunc on
@@ -960,21 +970,21 @@ func (fr *Frame) builtinAppend(n *vnode, instr *ssa.Call, c *ssa.CallCommon) *Va
 }
 
 // callAsserts: cut-point assertions of the function under contract attached to this call site.
-func (fr *Frame) callAsserts(n *vnode, instr *ssa.Call, callee *ssa.Function, c *ssa.CallCommon, args []*Val) {
+func (fr *Frame) callSiteClauses(n *vnode, instr *ssa.Call, callee *ssa.Function, c *ssa.CallCommon, args []*Val, result *Val, after bool) {
 	x := fr.x
 	if fr != x.topFrame || fr.contract == nil || len(fr.contract.Asserts) == 0 {
 		return
 	}
-	name := ""
+	name := "dynamic"
 	if callee != nil {
 		name = callee.String()
 	} else if c.IsInvoke() {
 		name = c.Method.FullName()
 	}
-	if name == "" {
-		return
-	}
 	for ai, as := range fr.contract.Asserts {
+		if as.Trust != after {
+			continue
+		}
 		short := strings.TrimSuffix(name, "[int64]")
 		if !(strings.HasSuffix(name, as.Callee) || strings.HasSuffix(short, as.Callee)) {
 			continue
@@ -992,10 +1002,21 @@ func (fr *Frame) callAsserts(n *vnode, instr *ssa.Call, callee *ssa.Function, c 
 		for i, a := range args {
 			en[fmt.Sprintf("arg%d", i)] = a
 		}
+		if after && result != nil {
+			en["result"] = result
+			for i, r := range result.Tup {
+				en[fmt.Sprintf("result%d", i)] = r
+			}
+		}
 		fr.extraNames = en
 		env := fr.specEnv(n, n.heap)
 		t := env.evalBool(as.C.E)
 		fr.extraNames = save
+		if after {
+			x.vc.Assume(Implies(n.reach, t))
+			x.eng.Note("unchecked assumption about the result of a call to " + as.Callee + " in " + fr.fn.String() + ": " + as.C.Text)
+			continue
+		}
 		cn := as.Callee
 		if i := strings.LastIndex(cn, "/"); i >= 0 {
 			cn = cn[i+1:]
